@@ -302,8 +302,12 @@ func (e *Exec) unary(st *State, x *ast.UnaryExpr) Val {
 			v := e.composite(st, cl)
 			return e.alloc(st, v, info.TypeOf(x))
 		}
-		// &x.f / &x: not modelled (would need address-taken locals)
-		e.fail(x.Pos(), "address-of on a non-literal is not supported")
+		// &x / &x.f / &s[i]: a fresh cell holding the current value. Exact when the pointer is only read
+		// (the common "return &loopVar" / "pass &local to a reader" idioms); a later write through the
+		// pointer would not be seen through the variable, which is recorded as a modelling note.
+		v := e.ev(st, x.X)
+		e.note("address-of a variable modelled as a fresh cell holding its current value at " + e.posStr(x.Pos()))
+		return e.alloc(st, v, info.TypeOf(x))
 	case token.ARROW:
 		t := info.TypeOf(x)
 		e.note("channel receive modelled as an arbitrary value at " + e.posStr(x.Pos()))
